@@ -10,8 +10,9 @@ Reference (from the statement and the spec term only):
   no trigger command has named, at a virtual time >= its expiry time;
 * after it no `jobs-submit` may name the instance (unless the operator
   triggers it afterwards);
-* the children spawned by completing `expired` are exactly the instances that
-  the graph term makes depend on `<task>:expire`.
+* the children spawned by completing `expired` (everything added to the pool
+  while the internal `expired` message is processed) are exactly the
+  instances that the graph term makes depend on `<task>:expire`.
 """
 from __future__ import annotations
 
@@ -28,6 +29,7 @@ from .world import World, _CUR
 
 COUNTS = Counters('c32-counters')
 HOUR = 3600
+ACTIVE = ('preparing', 'submitted', 'running')
 
 
 # ---------------------------------------------------------------------------
@@ -72,35 +74,38 @@ def ref_offsets(spec: dict) -> Dict[str, int]:
 
 
 # ---------------------------------------------------------------------------
-# extra funnel: bracket TaskPool.spawn_on_output
+# extra funnel: bracket TaskEventsManager.process_message
 
 _WRAPPED = False
 
 
-def wrap_spawn() -> None:
+def wrap_process_message() -> None:
+    """Emit `proc_msg` begin/end events around the handling of one task
+    message (clock expiry is delivered as the internal message `expired`)."""
     global _WRAPPED
     if _WRAPPED:
         return
     _WRAPPED = True
-    from cylc.flow.task_pool import TaskPool
-    orig = TaskPool.spawn_on_output
+    from cylc.flow.task_events_mgr import TaskEventsManager
+    orig = TaskEventsManager.process_message
 
-    def spawn_on_output(self, itask, output, *a, **kw):
+    def process_message(self, itask, severity, message, *a, **kw):
         w = _CUR[0]
         if w is not None:
-            w.emit('spawn_out', phase='begin', itask=itask, output=output)
+            w.emit('proc_msg', phase='begin', itask=itask, message=message)
         try:
-            return orig(self, itask, output, *a, **kw)
+            return orig(self, itask, severity, message, *a, **kw)
         finally:
             if w is not None:
-                w.emit('spawn_out', phase='end', itask=itask, output=output)
-    TaskPool.spawn_on_output = spawn_on_output
+                w.emit('proc_msg', phase='end', itask=itask, message=message)
+    TaskEventsManager.process_message = process_message
 
 
 class ClockProfile(EarlyProfile):
     """EarlyProfile that starts every world at the virtual time EPOCH0
     (datetime cycle points are absolute, so the clock may not drift from one
-    boot of the search to the next)."""
+    boot of the search to the next), and that can also advance the clock to
+    one second *before* the next deadline (event ('jump', 'pre'))."""
 
     def make_world(self):
         if self._world is not None:
@@ -108,6 +113,28 @@ class ClockProfile(EarlyProfile):
             self._world = None
         CLOCK.now = EPOCH0
         return super().make_world()
+
+    def _next(self, w):
+        from . import canon
+        canon.world_canon(w, with_db=False)
+        return canon.next_deadline(self.jump)
+
+    def enabled(self, w):
+        evs = super().enabled(w)
+        if ('jump',) in evs:
+            when = self._next(w)
+            if when is not None and when - CLOCK.now > 2:
+                evs.insert(evs.index(('jump',)) + 1, ('jump', 'pre'))
+        return evs
+
+    def apply(self, w, ev):
+        if ev[0] == 'jump' and len(ev) > 1 and ev[1] == 'pre':
+            when = self._next(w)
+            if when is not None and when - 1 > CLOCK.now:
+                CLOCK.now = when - 1
+            w.resume()
+            return
+        return super().apply(w, ev)
 
 
 def _ident(it) -> str:
@@ -125,7 +152,7 @@ class ClockExpiry(Monitor):
         self.window: Optional[dict] = None
 
     def early_attach(self, w: World) -> None:
-        wrap_spawn()
+        wrap_process_message()
         self.w = w
         s = w.spec
         self.offsets = ref_offsets(s)
@@ -164,7 +191,14 @@ class ClockExpiry(Monitor):
         if kind == 'command':
             ok = bool(data['result'][0]) if data.get('result') else False
             if ok and data['name'] == 'force_trigger_tasks':
+                pool = getattr(self.w.schd, 'pool', None)
                 for tid in data['kwargs'].get('tasks', []):
+                    it = pool._get_task_by_id(tid) if pool else None
+                    if it is not None and it.state.status in ACTIVE:
+                        # documented: triggering a task whose job is already
+                        # in process has no effect
+                        COUNTS.bump('trigger_commands_on_active_tasks')
+                        continue
                     self.manual.add(tid)
                     if tid in self.expired:
                         self.retriggered.add(tid)
@@ -182,14 +216,14 @@ class ClockExpiry(Monitor):
                         'expired-task-submitted',
                         f'{ident} expired earlier in this run and now '
                         f'submits job #{num}'))
-        elif kind == 'spawn_out':
-            if data['output'] != 'expired':
+        elif kind == 'proc_msg':
+            if data['message'] != 'expired':
                 return
             if data['phase'] == 'begin':
                 self.window = {'itask': data['itask'], 'added': []}
             else:
                 win, self.window = self.window, None
-                if win is not None:
+                if win is not None and _ident(win['itask']) in self.expired:
                     self._children(win)
         elif kind == 'add' and self.window is not None:
             self.window['added'].append(_ident(data['itask']))
@@ -242,9 +276,6 @@ class ClockExpiry(Monitor):
     def _children(self, win: dict) -> None:
         it = win['itask']
         ident = _ident(it)
-        if ident not in self.expired:
-            # `expired` completed without an expiry transition we saw
-            COUNTS.bump('expired_output_without_expiry')
         want = {
             f'{point_str(p, self.base)}/{t}'
             for t, p in self.ref.children(
@@ -254,6 +285,8 @@ class ClockExpiry(Monitor):
             COUNTS.bump('expired_outputs_with_children')
         pool = self.w.schd.pool
         for x in win['added']:
+            if x.split('/')[1] == it.tdef.name and x != ident:
+                continue    # next instance of the same (parentless) task
             if x not in want:
                 self.bad.append(self.viol(
                     'spawned-non-expire-child',
@@ -302,7 +335,11 @@ class ClockExpiry(Monitor):
                 off = self.offsets.get(t.tdef.name)
                 if off is None or t.state.status == 'expired':
                     continue
-                if CLOCK.now >= point_seconds(str(t.point)) + off:
+                t_exp = point_seconds(str(t.point)) + off
+                if (t.state.status == 'waiting' and 0 < t_exp - CLOCK.now
+                        <= 1.5 and _ident(t) not in self.manual):
+                    COUNTS.bump('states_waiting_task_just_before_expiry')
+                if CLOCK.now >= t_exp:
                     if _ident(t) in self.manual:
                         COUNTS.bump('states_manual_task_past_expiry_time')
                     elif t.state.status != 'waiting':
